@@ -65,19 +65,102 @@ def field_cases(tlc_cases):
     return out
 
 
+ALIAS = {"PageRc": "Page", "PagesRc": "PagesNode"}
+
+
+def strip_wrappers(t):
+    changed = True
+    while changed:
+        changed = False
+        for p in ("Option<", "MaybeRef<", "Box<", "RcRef<", "Vec<"):
+            if t.startswith(p):
+                t, changed = t[len(p):-1], True
+    return ALIAS.get(t, t)
+
+
+def nested_cases(tlc_cases):
+    """the spec's nested rows: a REQUIRED followed entry of an inner typed object dangles, and the inner object is the value of an optional /
+    defaulted / container entry of an outer typed object (one or two levels up). Strict: an error naming the inner entry; tolerant: absent."""
+    table = {}
+    for c in tlc_cases:
+        j = json.loads(c)
+        if j["nested"]:
+            table[(j["kind"], j["mode"])] = j["ideal"]
+    ms = models.extract()
+    by = {m["name"]: m for m in ms}
+    out = []
+
+    def inner_targets(model, depth):
+        """(path of keys, inner dict text with {REF} in place of the dangling required entry, key, field) below `model`"""
+        res = []
+        base = models.minimal(model, by)
+        if base is False:
+            return res
+        for g in model["fields"]:
+            if models.role(g) == "required" and g["carrier"] not in ("lazy", "ref", "primitive") and g["key"]:
+                import re
+                body = base[2:-2]
+                d2 = re.sub(r"/%s (\[[^\]]*\]|<<.*?>>|\([^)]*\)|\S+( 0 R)?)" % re.escape(g["key"]), "/%s {REF}" % g["key"], body, count=1)
+                if d2 != body:
+                    res.append(("<<%s>>" % d2, g["key"], g["field"]))
+        if depth > 0:
+            for f in model["fields"]:
+                if models.role(f) in ("option", "default", "container") and f["carrier"] not in ("lazy", "ref") and f["key"]:
+                    n = strip_wrappers(f["type"].replace(" ", ""))
+                    if n in by and n != model["name"]:
+                        wrap = "[%s]" if f["type"].replace(" ", "").startswith("Vec<") or "Option<Vec<" in f["type"].replace(" ", "") else "%s"
+                        for txt, k, fld in inner_targets(by[n], depth - 1):
+                            res.append(("<< %s /%s %s >>" % (base[2:-2].strip(), f["key"], wrap % txt), k, fld))
+        return res
+    for m in ms:
+        base = models.minimal(m, by)
+        if base is False:
+            continue
+        for f in m["fields"]:
+            if models.role(f) not in ("option", "default", "container") or f["carrier"] in ("lazy", "ref") or not f["key"]:
+                continue
+            t = f["type"].replace(" ", "")
+            n = strip_wrappers(t)
+            if n not in by or n == m["name"]:
+                continue
+            wrap = "[%s]" if t.startswith("Vec<") or t.startswith("Option<Vec<") else "%s"
+            indirect = "Rc" in t            # RcRef / PageRc / PagesRc values must be indirect objects
+            for txt, k, fld in inner_targets(by[n], 1):
+                for kind, (mkind, ref) in PLANT.items():
+                    for mode in ("strict", "tolerant"):
+                        # only the Option reader is lenient in tolerant mode; through a container or a defaulted entry the error stays
+                        ideal = table.get((mkind, mode), "err_named") if models.role(f) == "option" else "err_named"
+                        aux = {str(a): v for a, v in models.AUX.items()}
+                        inner_txt = txt.replace("{REF}", ref)
+                        if indirect:
+                            aux["53"] = inner_txt
+                            inner_txt = "53 0 R"
+                        d = "<< %s /%s %s >>" % (base[2:-2].strip(), f["key"], wrap % inner_txt)
+                        out.append(json.dumps({"model": m["name"], "base": base, "dict": d, "aux": aux,
+                                               "key": k, "field": fld, "type": f["type"], "role": "nested-" + models.role(f), "carrier": "struct",
+                                               "kind": kind, "mode": mode, "expect": "err_named" if ideal == "err_named" else "ok", "asbuilt": "err"}))
+    return out
+
+
+def all_cases(tlc_cases):
+    return field_cases([c for c in tlc_cases if not json.loads(c)["nested"]]) + nested_cases(tlc_cases)
+
+
 def run(tier, seed):
     return common.run_enum(PID, tier, seed, "MC_Dangling", "dangling", ["Dangling_q.cfg"],
-        [("Dangling_w_option_matches_only_unwrapped.cfg", "option_matches_only_unwrapped")],
-        actions=["Resolve", "Carry", "OptionRead", "Field"],
+        [("Dangling_w_option_matches_only_unwrapped.cfg", "option_matches_only_unwrapped"), ("Dangling_w_field_error_counts_as_missing.cfg", "field_error_counts_as_missing")],
+        actions=["Resolve", "Carry", "OptionRead", "Field", "OuterOption"],
         rule="the spec's outcome table (dangling kind {free entry, number >= /Size, gap} x carrier {direct primitive, nested struct, MaybeRef, RcRef, Vec, Lazy, Ref} x "
              "{strict, tolerant} x {optional, required}) crossed with EVERY keyed field of every typed model with a derived reader found in the library's sources "
              "(extractor run at check time): the reference is planted into a generated minimal valid dictionary of the model (as the entry itself, as an array element, "
              "as a dictionary value) and the model is read through its real reader; optional/defaulted/container entries must read as absent, required entries must "
-             "fail with an error naming the entry, nothing may panic; non-trivial = the reader follows the reference",
+             "fail with an error naming the entry, nothing may panic; nested rows: a required followed entry of an inner typed object dangles while the inner object is the "
+             "value of an optional / defaulted / container entry one or two levels up (every such chain the extractor finds): strict reading must fail naming the inner entry "
+             "(the inner object exists, it is not 'missing'), tolerant reading may drop the outer entry; non-trivial = the reader follows the reference",
         assumptions=["models whose generated minimal dictionary does not load are reported as not covered (notes)",
                      "'an error naming the entry' = the error chain contains the dictionary key or the field name",
                      "hand-written readers (Font, ColorSpace, Function, ...) are not part of the registry; they are exercised by C14"],
-        case_filter=field_cases, exhaustive=True)
+        case_filter=all_cases, exhaustive=True)
 
 
 def replay(path, seed):
